@@ -276,6 +276,8 @@ func (m *Mast) flush(ctx context.Context) (string, error) {
 		return "", fmt.Errorf("no persistence mechanism set; set RemoteConfig.StoreImmutablePartsWith")
 	}
 	if m.root == nil {
+		// emptied by deletes: now persisted as the empty version, hence clean (see IsDirty)
+		m.root = emptyNodePointer(int(m.branchFactor))
 		return "", nil
 	}
 	node, err := m.load(ctx, m.root)
@@ -721,6 +723,10 @@ func (m *Mast) Clone(ctx context.Context) (Mast, error) {
 
 // IsDirty signifies that in-memory values have been Set() or merged that haven't been Save()d.
 func (m *Mast) IsDirty() bool {
+	if m.root == nil {
+		// only deleting the last entry leaves no root at all
+		return true
+	}
 	if node, ok := m.root.(*mastNode); ok {
 		return node.dirty
 	}
